@@ -17,6 +17,7 @@ package contractcourt
 import (
 	"context"
 	"crypto/sha256"
+	"errors"
 	"fmt"
 	"sort"
 	"sync"
@@ -56,7 +57,13 @@ const (
 	c12PreNone = 0
 	c12PreBcn  = 1 // preimage in the witness beacon (PreimageDB)
 	c12PreInv  = 2 // preimage in an invoice of the registry
+	// Two more answers of the registry that both mean "preimage NOT known":
+	c12PreHold  = 3 // an invoice for the hash exists but carries no preimage (hold invoice not yet settled)
+	c12PreNoInv = 4 // the registry answers ErrNoInvoicesCreated instead of ErrInvoiceNotFound
 )
+
+// c12Known: does the node know the preimage of an HTLC with this Pre value.
+func c12Known(p int8) bool { return p == c12PreBcn || p == c12PreInv }
 
 // c12HTLC is one HTLC of a cell.
 type c12HTLC struct {
@@ -81,6 +88,56 @@ type c12Cell struct {
 	DIn        uint32    `json:"delta_in"`
 	GracePassed bool     `json:"grace_passed"`
 	Startup    bool      `json:"startup_feed"` // HTLC sets given at construction instead of by contract updates
+
+	// Dimensions added by the audit (zero value = the original behaviour, so old
+	// replay artefacts keep their meaning).
+	//
+	// GraceMode: 0 = PaymentsExpirationGracePeriod 1h, uptime 1h-/+1min according
+	// to GracePassed; 1 = grace 1h, uptime exactly 1h (threshold: not passed);
+	// 2 = grace 0 (lnd's default), uptime 1min (passed); 3 = grace 0, uptime 0
+	// (threshold: not passed).
+	GraceMode int8 `json:"grace_mode,omitempty"`
+	// Numbering: 0 = HTLC ids from 1, output indices 20+/40+/60+ (disjoint per
+	// commitment); 1 = everything zero-based (ids from 0, output indices from 0 on
+	// every commitment: the first HTLC of a young channel sits at output 0).
+	Numbering int8 `json:"numbering,omitempty"`
+	// Extras: 1 = the close summary also carries a commit (to-self) resolution and
+	// an anchor resolution next to the HTLC resolutions.
+	Extras int8 `json:"extras,omitempty"`
+	// Hist: answer of FetchHistoricalChannel: 0 = found (zero-value legacy
+	// channel), 1 = ErrChannelNotFound, 2 = ErrNoHistoricalBucket, 3 = found,
+	// anchor channel type.
+	Hist int8 `json:"hist,omitempty"`
+	// SameHash: all HTLCs of the cell carry one payment hash (shards of one MPP
+	// payment / a circular route); requires equal Pre values.
+	SameHash bool `json:"same_hash,omitempty"`
+	// LateFeed: the link's contract updates arrive only after a first block epoch
+	// has been processed on empty HTLC sets (every HTLC added after start-up).
+	LateFeed bool `json:"late_feed,omitempty"`
+}
+
+// vtag renders the non-default audit dimensions of a cell (signature suffix).
+func (c *c12Cell) vtags() []string {
+	var t []string
+	if c.GraceMode != 0 {
+		t = append(t, fmt.Sprintf("grace%d", c.GraceMode))
+	}
+	if c.Numbering != 0 {
+		t = append(t, "zerobased")
+	}
+	if c.Extras != 0 {
+		t = append(t, "extras")
+	}
+	if c.Hist != 0 {
+		t = append(t, fmt.Sprintf("hist%d", c.Hist))
+	}
+	if c.SameHash {
+		t = append(t, "samehash")
+	}
+	if c.LateFeed {
+		t = append(t, "latefeed")
+	}
+	return t
 }
 
 func (c *c12Cell) number() {
@@ -88,7 +145,13 @@ func (c *c12Cell) number() {
 	// directions on purpose, and disjoint from the ranges used for LogIndex
 	// (100+) and for the per-commitment output indices (20+, 40+, 60+), so that
 	// any index-like field read in place of another addresses no HTLC at all.
+	//
+	// Numbering 1 gives up that separation on purpose: ids and output indices start
+	// at 0, the value the code's comparisons against zero single out.
 	o, i := uint64(1), uint64(1)
+	if c.Numbering == 1 {
+		o, i = 0, 0
+	}
 	for k := range c.HTLCs {
 		if c.HTLCs[k].In {
 			c.HTLCs[k].Idx = i
@@ -161,6 +224,14 @@ func c12Preimage(in bool, idx uint64) lntypes.Preimage {
 	return lntypes.Preimage(sha256.Sum256([]byte(fmt.Sprintf("c12-preimage-%v-%d", in, idx))))
 }
 
+// preimage of HTLC k of the cell (one shared value when SameHash).
+func (c *c12Cell) preimage(k int) lntypes.Preimage {
+	if c.SameHash {
+		return lntypes.Preimage(sha256.Sum256([]byte("c12-preimage-shared")))
+	}
+	return c12Preimage(c.HTLCs[k].In, c.HTLCs[k].Idx)
+}
+
 // ---------------------------------------------------------------------------
 // Observations
 // ---------------------------------------------------------------------------
@@ -198,6 +269,8 @@ type c12Obs struct {
 	ResolvedNotif int        `json:"channel_resolved_notifications"`
 	States        []string   `json:"states"`
 	Errors        []string   `json:"errors"`
+	// Injected: errors that are the injected publication failure coming back.
+	Injected []string `json:"injected_errors,omitempty"`
 	// Foreign: keyed queries/notifications whose key belongs to no HTLC of the
 	// cell ("dependency: key"), sorted and de-duplicated. Queries: number of keyed
 	// calls answered from the tables.
@@ -323,7 +396,11 @@ type c12Channel struct{ w *c12World }
 func (c *c12Channel) ForceCloseChan() (*wire.MsgTx, error) {
 	c.w.mu.Lock()
 	c.w.obs.ForceCloses++
+	fault := c.w.fault
 	c.w.mu.Unlock()
+	if fault == "dataloss" {
+		return nil, lnwallet.ErrForceCloseLocalDataLoss
+	}
 	return &wire.MsgTx{Version: 2}, nil
 }
 func (c *c12Channel) NewAnchorResolutions() (*lnwallet.AnchorResolutions, error) {
@@ -359,15 +436,22 @@ func (b *c12Beacon) AddPreimages(...lntypes.Preimage) error { return nil }
 type c12Registry struct {
 	w     *c12World
 	known map[lntypes.Hash]lntypes.Preimage
+	hold  map[lntypes.Hash]bool // invoice exists, preimage not known
+	noinv map[lntypes.Hash]bool // answered with ErrNoInvoicesCreated
 }
 
 func (r *c12Registry) LookupInvoice(_ context.Context, h lntypes.Hash) (invoices.Invoice, error) {
 	r.w.keyed("Registry.LookupInvoice", r.w.hashes[h], "hash %x", h[:4])
 	p, ok := r.known[h]
-	if !ok {
-		return invoices.Invoice{}, invoices.ErrInvoiceNotFound
+	switch {
+	case ok:
+		return invoices.Invoice{Terms: invoices.ContractTerm{PaymentPreimage: &p}}, nil
+	case r.hold[h]:
+		return invoices.Invoice{Terms: invoices.ContractTerm{Value: 1000}, State: invoices.ContractAccepted}, nil
+	case r.noinv[h]:
+		return invoices.Invoice{}, invoices.ErrNoInvoicesCreated
 	}
-	return invoices.Invoice{Terms: invoices.ContractTerm{PaymentPreimage: &p}}, nil
+	return invoices.Invoice{}, invoices.ErrInvoiceNotFound
 }
 func (r *c12Registry) NotifyExitHopHtlc(lntypes.Hash, lnwire.MilliSatoshi, uint32, int32,
 	models.CircuitKey, chan<- interface{}, lnwire.CustomRecords,
@@ -428,7 +512,18 @@ type c12World struct {
 	entries  map[c12Entry]bool     // every channeldb.HTLC entry handed to the arbitrator
 	foreign  map[string]bool
 	nQueries int
+
+	// fault injected into the go-to-chain step ("", dataloss, doublespend,
+	// mempoolfee, pubfail); arbs: every arbitrator instance created (restarts).
+	fault  string
+	arbs   []*ChannelArbitrator
+	beacon *c12Beacon
+	reg    *c12Registry
+	fwd    map[uint64]bool
 }
+
+// errC12Publish is the injected generic publication failure.
+var errC12Publish = fmt.Errorf("c12: injected publish failure")
 
 // keyed records one keyed call; ok=false means the key addresses no HTLC of the
 // cell (the dependency then gives its "unknown" answer).
@@ -464,10 +559,13 @@ var c12CommitHash = map[HtlcSetKey]chainhash.Hash{
 
 var c12BreachHash = chainhash.Hash(sha256.Sum256([]byte("c12-commit-revoked")))
 
-// outIndexOn is the output index of HTLC k on the given commitment (if it has an
+// outIdx is the output index of HTLC k on the given commitment (if it has an
 // output there). The three commitments use disjoint ranges: an output index taken
 // from the wrong commitment's HTLC entry matches nothing.
-func outIndexOn(key HtlcSetKey, k int) int32 {
+func (c *c12Cell) outIdx(key HtlcSetKey, k int) int32 {
+	if c.Numbering == 1 {
+		return int32(k)
+	}
 	switch key {
 	case LocalHtlcSet:
 		return int32(20 + k)
@@ -491,7 +589,7 @@ func (c *c12Cell) htlcsOn(key HtlcSetKey) []channeldb.HTLC {
 		if p == c12Absent {
 			continue
 		}
-		pre := c12Preimage(h.In, h.Idx)
+		pre := c.preimage(k)
 		e := channeldb.HTLC{
 			RHash:         pre.Hash(),
 			Amt:           lnwire.MilliSatoshi(1_000_000 * (k + 1)),
@@ -502,7 +600,7 @@ func (c *c12Cell) htlcsOn(key HtlcSetKey) []channeldb.HTLC {
 			LogIndex:      c12LogIndex(k),
 		}
 		if p == c12Output {
-			e.OutputIndex = outIndexOn(key, k)
+			e.OutputIndex = c.outIdx(key, k)
 		}
 		out = append(out, e)
 	}
@@ -523,17 +621,48 @@ func (c *c12Cell) commitSet(conf HtlcSetKey) *CommitSet {
 	return cs
 }
 
+// startupSets is what ChainArbitrator hands to NewChannelArbitrator when it loads
+// an open channel from the database.
+func (c *c12Cell) startupSets() map[HtlcSetKey]htlcSet {
+	sets := make(map[HtlcSetKey]htlcSet)
+	sets[LocalHtlcSet] = newHtlcSet(c.htlcsOn(LocalHtlcSet))
+	sets[RemoteHtlcSet] = newHtlcSet(c.htlcsOn(RemoteHtlcSet))
+	if c.HasPending {
+		sets[RemotePendingHtlcSet] = newHtlcSet(c.htlcsOn(RemotePendingHtlcSet))
+	}
+	return sets
+}
+
+// extras adds the non-HTLC resolutions (Extras dimension): our to-self output and
+// our anchor, at output indices no HTLC uses.
+func (c *c12Cell) extras(res *ContractResolutions) {
+	if c.Extras == 0 {
+		return
+	}
+	sd := input.SignDescriptor{Output: &wire.TxOut{Value: 50_000}}
+	res.CommitResolution = &lnwallet.CommitOutputResolution{
+		SelfOutPoint:       wire.OutPoint{Hash: res.CommitHash, Index: 90},
+		SelfOutputSignDesc: sd,
+		MaturityDelay:      4,
+	}
+	res.AnchorResolution = &lnwallet.AnchorResolution{
+		AnchorSignDescriptor: input.SignDescriptor{Output: &wire.TxOut{Value: 330}},
+		CommitAnchor:         wire.OutPoint{Hash: res.CommitHash, Index: 91},
+	}
+}
+
 // resolutions synthesises the lnwallet resolutions the chain watcher would hand
 // over for the confirmed commitment: one per HTLC that has an output on it.
 // Second-level transactions exist only on our own commitment.
 func (c *c12Cell) resolutions(conf HtlcSetKey) *ContractResolutions {
 	hash := c12CommitHash[conf]
 	res := &ContractResolutions{CommitHash: hash}
+	c.extras(res)
 	for k, h := range c.HTLCs {
 		if h.on(conf) != c12Output {
 			continue
 		}
-		op := wire.OutPoint{Hash: hash, Index: uint32(outIndexOn(conf, k))}
+		op := wire.OutPoint{Hash: hash, Index: uint32(c.outIdx(conf, k))}
 		sd := input.SignDescriptor{Output: &wire.TxOut{Value: int64(1000 * (k + 1))}}
 		var second *wire.MsgTx
 		claim := op
@@ -560,6 +689,29 @@ func (c *c12Cell) resolutions(conf HtlcSetKey) *ContractResolutions {
 	return res
 }
 
+// graceAndUptime renders the GraceMode dimension.
+func (c *c12Cell) graceAndUptime() (grace, uptime time.Duration) {
+	switch c.GraceMode {
+	case 1:
+		return c12Grace, c12Grace
+	case 2:
+		return 0, time.Minute
+	case 3:
+		return 0, 0
+	}
+	if c.GracePassed {
+		return c12Grace, c12Grace + time.Minute
+	}
+	return c12Grace, c12Grace - time.Minute
+}
+
+// c12Closed describes a channel that is marked closed in the database (what
+// ChainArbitrator passes for a closing channel after a restart).
+type c12Closed struct {
+	Type   channeldb.ClosureType
+	Height uint32
+}
+
 func newC12World(cell c12Cell, info func(string, ...any)) *c12World {
 	cell.number()
 	w := &c12World{cell: cell, info: info}
@@ -575,18 +727,21 @@ func newC12World(cell c12Cell, info func(string, ...any)) *c12World {
 			if p := h.on(key); p != c12Absent {
 				out := int32(-1)
 				if p == c12Output {
-					out = outIndexOn(key, k)
+					out = cell.outIdx(key, k)
 				}
-				pre := c12Preimage(h.In, h.Idx)
+				pre := cell.preimage(k)
 				w.entries[c12Entry{h.In, h.Idx, c12LogIndex(k), out, pre.Hash(), h.Exp}] = true
 			}
 		}
 	}
-	beacon := &c12Beacon{w: w, known: map[lntypes.Hash]lntypes.Preimage{}}
-	reg := &c12Registry{w: w, known: map[lntypes.Hash]lntypes.Preimage{}}
-	fwd := map[uint64]bool{}
-	for _, h := range cell.HTLCs {
-		p := c12Preimage(h.In, h.Idx)
+	w.beacon = &c12Beacon{w: w, known: map[lntypes.Hash]lntypes.Preimage{}}
+	w.reg = &c12Registry{
+		w: w, known: map[lntypes.Hash]lntypes.Preimage{},
+		hold: map[lntypes.Hash]bool{}, noinv: map[lntypes.Hash]bool{},
+	}
+	w.fwd = map[uint64]bool{}
+	for k, h := range cell.HTLCs {
+		p := cell.preimage(k)
 		w.hashes[p.Hash()] = true
 		if h.In {
 			w.recvIdx[h.Idx] = true
@@ -595,21 +750,62 @@ func newC12World(cell c12Cell, info func(string, ...any)) *c12World {
 		}
 		switch h.Pre {
 		case c12PreBcn:
-			beacon.known[p.Hash()] = p
+			w.beacon.known[p.Hash()] = p
 		case c12PreInv:
-			reg.known[p.Hash()] = p
+			w.reg.known[p.Hash()] = p
+		case c12PreHold:
+			w.reg.hold[p.Hash()] = true
+		case c12PreNoInv:
+			w.reg.noinv[p.Hash()] = true
 		}
 		if !h.In && h.Fwd {
-			fwd[h.Idx] = true
+			w.fwd[h.Idx] = true
 		}
 	}
 
+	sets := make(map[HtlcSetKey]htlcSet)
+	if cell.Startup {
+		// What ChainArbitrator does when it loads an open channel.
+		sets = cell.startupSets()
+	}
+	w.arb = w.newArb(sets, nil)
+	if !cell.Startup && !cell.LateFeed {
+		w.feed()
+	}
+	return w
+}
+
+// feed is what the link does after every commitment update.
+func (w *c12World) feed() {
+	cell := &w.cell
+	w.arb.notifyContractUpdate(&ContractUpdate{HtlcKey: LocalHtlcSet, Htlcs: cell.htlcsOn(LocalHtlcSet)})
+	w.arb.notifyContractUpdate(&ContractUpdate{HtlcKey: RemoteHtlcSet, Htlcs: cell.htlcsOn(RemoteHtlcSet)})
+	if cell.HasPending {
+		w.arb.notifyContractUpdate(&ContractUpdate{
+			HtlcKey: RemotePendingHtlcSet, Htlcs: cell.htlcsOn(RemotePendingHtlcSet),
+		})
+	}
+}
+
+// lateFeed (LateFeed dimension): a block epoch at height h is processed while the
+// channel carries no HTLC yet, then the link reports the HTLC sets.
+func (w *c12World) lateFeed(h uint32) {
+	if !w.cell.LateFeed {
+		return
+	}
+	w.advance(h, chainTrigger, nil)
+	w.info("link reports the HTLC sets (after the block at height %d)", h)
+	w.feed()
+}
+
+// newArb builds one (un-started) arbitrator instance on the world's log. closed !=
+// nil: the channel is marked closed in the database (no ArbChannel, no HTLC sets).
+func (w *c12World) newArb(sets map[HtlcSetKey]htlcSet, closed *c12Closed) *ChannelArbitrator {
+	cell := &w.cell
+
 	// The arbitrator is never started, so its start timestamp is the zero time:
 	// a test clock at zero+uptime makes the uptime exact.
-	uptime := c12Grace - time.Minute
-	if cell.GracePassed {
-		uptime = c12Grace + time.Minute
-	}
+	grace, uptime := cell.graceAndUptime()
 
 	chainCfg := ChainArbitratorConfig{
 		ChainIO:                &c12ChainIO{w: w},
@@ -618,7 +814,16 @@ func newC12World(cell c12Cell, info func(string, ...any)) *c12World {
 		PublishTx: func(*wire.MsgTx, string) error {
 			w.mu.Lock()
 			w.obs.Published++
+			fault := w.fault
 			w.mu.Unlock()
+			switch fault {
+			case "doublespend":
+				return lnwallet.ErrDoubleSpend
+			case "mempoolfee":
+				return lnwallet.ErrMempoolFee
+			case "pubfail":
+				return errC12Publish
+			}
 			return nil
 		},
 		DeliverResolutionMsg: func(msgs ...ResolutionMsg) error {
@@ -650,13 +855,13 @@ func newC12World(cell c12Cell, info func(string, ...any)) *c12World {
 		IsForwardedHTLC: func(scid lnwire.ShortChannelID, idx uint64) bool {
 			ok := scid == c12Scid && w.offIdx[idx]
 			w.keyed("IsForwardedHTLC", ok, "chan %v htlc %d", scid, idx)
-			return ok && fwd[idx]
+			return ok && w.fwd[idx]
 		},
 		SubscribeBreachComplete: func(*wire.OutPoint, chan struct{}) (bool, error) {
 			return false, nil
 		},
 		Clock:                         clock.NewTestClock(time.Time{}.Add(uptime)),
-		PaymentsExpirationGracePeriod: c12Grace,
+		PaymentsExpirationGracePeriod: grace,
 		Sweeper:                       c12Sweeper{},
 		HtlcNotifier:                  &c12HtlcNotifier{w: w},
 		PutFinalHtlcOutcome: func(scid lnwire.ShortChannelID, id uint64, settled bool) error {
@@ -667,8 +872,8 @@ func newC12World(cell c12Cell, info func(string, ...any)) *c12World {
 			return nil
 		},
 		Budget:     *DefaultBudgetConfig(),
-		PreimageDB: beacon,
-		Registry:   reg,
+		PreimageDB: w.beacon,
+		Registry:   w.reg,
 		QueryIncomingCircuit: func(k models.CircuitKey) *models.CircuitKey {
 			w.keyed("QueryIncomingCircuit", k.ChanID == c12Scid && w.offIdx[k.HtlcID],
 				"chan %v htlc %d", k.ChanID, k.HtlcID)
@@ -691,6 +896,17 @@ func newC12World(cell c12Cell, info func(string, ...any)) *c12World {
 		},
 		PutResolverReport: func(kvdb.RwTx, *channeldb.ResolverReport) error { return nil },
 		FetchHistoricalChannel: func() (*chanstate.OpenChannel, error) {
+			switch cell.Hist {
+			case 1:
+				return nil, channeldb.ErrChannelNotFound
+			case 2:
+				return nil, channeldb.ErrNoHistoricalBucket
+			case 3:
+				return &chanstate.OpenChannel{
+					ChanType: channeldb.SingleFunderTweaklessBit | channeldb.AnchorOutputsBit |
+						channeldb.ZeroHtlcTxFeeBit,
+				}, nil
+			}
 			return &chanstate.OpenChannel{}, nil
 		},
 		FindOutgoingHTLCDeadline: func(h channeldb.HTLC) fn.Option[int32] {
@@ -702,28 +918,57 @@ func newC12World(cell c12Cell, info func(string, ...any)) *c12World {
 		},
 		ChainArbitratorConfig: chainCfg,
 	}
+	if closed != nil {
+		// ChainArbitrator's configuration for a channel found in the closing state.
+		arbCfg.Channel = nil
+		arbCfg.IsPendingClose = true
+		arbCfg.CloseType = closed.Type
+		arbCfg.ClosingHeight = closed.Height
+	}
+	arb := NewChannelArbitrator(arbCfg, sets, w.log)
+	w.arbs = append(w.arbs, arb)
+	return arb
+}
 
+// restart models a node restart at a quiescent point: the running instance is
+// stopped, a new one is built on the same log the way ChainArbitrator does (open
+// channel: HTLC sets from the channel database; closed != nil: a closing channel),
+// and the two things ChannelArbitrator.Start / channelAttendant do synchronously
+// before entering the event loop are executed: load the start state, then
+// progressStateMachineAfterRestart at the current best height.
+func (w *c12World) restart(best uint32, closed *c12Closed) ArbitratorState {
+	_ = w.arb.Stop()
 	sets := make(map[HtlcSetKey]htlcSet)
-	if cell.Startup {
-		// What ChainArbitrator does when it loads an open channel.
-		sets[LocalHtlcSet] = newHtlcSet(cell.htlcsOn(LocalHtlcSet))
-		sets[RemoteHtlcSet] = newHtlcSet(cell.htlcsOn(RemoteHtlcSet))
-		if cell.HasPending {
-			sets[RemotePendingHtlcSet] = newHtlcSet(cell.htlcsOn(RemotePendingHtlcSet))
-		}
+	if closed == nil {
+		sets = w.cell.startupSets()
 	}
-	w.arb = NewChannelArbitrator(arbCfg, sets, w.log)
-	if !cell.Startup {
-		// What the link does after every commitment update.
-		w.arb.notifyContractUpdate(&ContractUpdate{HtlcKey: LocalHtlcSet, Htlcs: cell.htlcsOn(LocalHtlcSet)})
-		w.arb.notifyContractUpdate(&ContractUpdate{HtlcKey: RemoteHtlcSet, Htlcs: cell.htlcsOn(RemoteHtlcSet)})
-		if cell.HasPending {
-			w.arb.notifyContractUpdate(&ContractUpdate{
-				HtlcKey: RemotePendingHtlcSet, Htlcs: cell.htlcsOn(RemotePendingHtlcSet),
-			})
-		}
+	arb := w.newArb(sets, closed)
+	w.arb = arb
+	w.height.Store(int32(best))
+	st, err := arb.getStartState(nil)
+	if err == nil {
+		arb.state = st.currentState
+		err = arb.progressStateMachineAfterRestart(int32(best), st.commitSet)
 	}
-	return w
+	w.mu.Lock()
+	w.obs.States = append(w.obs.States, arb.state.String())
+	if err != nil {
+		w.noteError(fmt.Sprintf("restart@%d: %v", best, err), err)
+	}
+	w.mu.Unlock()
+	w.info("RESTART at best height %d (closed=%+v): start state from the log, progressStateMachineAfterRestart -> %v err=%v",
+		best, closed, arb.state, err)
+	return arb.state
+}
+
+// noteError records an error returned by the arbitrator (w.mu held). The injected
+// generic publication failure is expected to surface as an error; it is kept apart.
+func (w *c12World) noteError(desc string, err error) {
+	if w.fault == "pubfail" && errors.Is(err, errC12Publish) {
+		w.obs.Injected = append(w.obs.Injected, desc)
+		return
+	}
+	w.obs.Errors = append(w.obs.Errors, desc)
 }
 
 // advance calls advanceState synchronously and records the resulting state.
@@ -733,7 +978,7 @@ func (w *c12World) advance(h uint32, trig transitionTrigger, cs *CommitSet) Arbi
 	w.mu.Lock()
 	w.obs.States = append(w.obs.States, st.String())
 	if err != nil {
-		w.obs.Errors = append(w.obs.Errors, fmt.Sprintf("%v@%d: %v", trig, h, err))
+		w.noteError(fmt.Sprintf("%v@%d: %v", trig, h, err), err)
 	}
 	w.mu.Unlock()
 	w.info("advanceState(height=%d, %v, confirmed=%s) -> %v err=%v", h, trig, confName(cs), st, err)
@@ -747,29 +992,62 @@ func confName(cs *CommitSet) string {
 	return cs.ConfCommitKey.UnwrapOr(HtlcSetKey{}).String()
 }
 
-// confirm delivers a close event the way the handle*Event functions do: log the
-// resolutions and the commit set, then advance with the matching trigger.
-func (w *c12World) confirm(h uint32, conf string) ArbitratorState {
-	w.mu.Lock()
-	w.phase = 1
-	w.mu.Unlock()
+// persistClose performs the log writes of a close event the way the handle*Event
+// functions do (resolutions, then the confirmed commit set) and returns what
+// advanceState is then called with, plus the close type recorded in the database.
+func (w *c12World) persistClose(conf string) (transitionTrigger, *CommitSet, channeldb.ClosureType) {
 	switch conf {
 	case "coop":
-		return w.advance(h, coopCloseTrigger, nil)
+		return coopCloseTrigger, nil, channeldb.CooperativeClose
 	case "breach":
 		cs := w.cell.commitSet(RemoteHtlcSet)
-		_ = w.log.LogContractResolutions(&ContractResolutions{
+		res := &ContractResolutions{
 			CommitHash:       c12BreachHash,
 			BreachResolution: &BreachResolution{FundingOutPoint: wire.OutPoint{Index: 7}},
-		})
+		}
+		if w.cell.Extras != 0 {
+			res.AnchorResolution = &lnwallet.AnchorResolution{
+				AnchorSignDescriptor: input.SignDescriptor{Output: &wire.TxOut{Value: 330}},
+				CommitAnchor:         wire.OutPoint{Hash: c12BreachHash, Index: 91},
+			}
+		}
+		_ = w.log.LogContractResolutions(res)
 		_ = w.log.InsertConfirmedCommitSet(cs)
-		return w.advance(h, breachCloseTrigger, cs)
+		return breachCloseTrigger, cs, channeldb.BreachClose
 	}
 	key, trig := confKey(conf)
 	cs := w.cell.commitSet(key)
 	_ = w.log.LogContractResolutions(w.cell.resolutions(key))
 	_ = w.log.InsertConfirmedCommitSet(cs)
+	ct := channeldb.RemoteForceClose
+	if conf == "local" {
+		ct = channeldb.LocalForceClose
+	}
+	return trig, cs, ct
+}
+
+func (w *c12World) setPhase(p int) {
+	w.mu.Lock()
+	w.phase = p
+	w.mu.Unlock()
+}
+
+// confirm delivers a close event the way the handle*Event functions do: log the
+// resolutions and the commit set, then advance with the matching trigger.
+func (w *c12World) confirm(h uint32, conf string) ArbitratorState {
+	w.setPhase(1)
+	trig, cs, _ := w.persistClose(conf)
 	return w.advance(h, trig, cs)
+}
+
+// confirmThenRestart: the close event was written to the log and the channel marked
+// closed, but the state machine never advanced (the node stopped, or advanceState
+// failed); the next start finds a closing channel.
+func (w *c12World) confirmThenRestart(h uint32, conf string) ArbitratorState {
+	w.setPhase(1)
+	_, _, ct := w.persistClose(conf)
+	w.info("close event (%s) persisted and channel marked closed at height %d; node stops before advancing", conf, h)
+	return w.restart(h+3, &c12Closed{Type: ct, Height: h})
 }
 
 func confKey(conf string) (HtlcSetKey, transitionTrigger) {
@@ -798,6 +1076,7 @@ func (w *c12World) snapshot() c12Obs {
 	o.Finals = append([]c12Final{}, w.obs.Finals...)
 	o.States = append([]string{}, w.obs.States...)
 	o.Errors = append([]string{}, w.obs.Errors...)
+	o.Injected = append([]string{}, w.obs.Injected...)
 	o.Inserts = n
 	o.Queries = w.nQueries
 	o.Foreign = nil
@@ -817,4 +1096,8 @@ func (w *c12World) snapshot() c12Obs {
 	return o
 }
 
-func (w *c12World) close() { _ = w.arb.Stop() }
+func (w *c12World) close() {
+	for _, a := range w.arbs {
+		_ = a.Stop()
+	}
+}
